@@ -105,7 +105,7 @@ pub fn worker(id: &str, tier: &str, seed: u64, w: u64, n: u64) -> i32 {
         announce(i);
         let mut rng = Rng::keyed(seed, i, "workload");
         let (wl, k) = workloads::pick(&cfg, i);
-        let sc = match workloads::make(wl, &mut rng, &cfg, k) {
+        let mut sc = match workloads::make(wl, &mut rng, &cfg, k) {
             Some(s) => s,
             None => {
                 sum.stats.discard("workload exhausted");
@@ -113,6 +113,13 @@ pub fn worker(id: &str, tier: &str, seed: u64, w: u64, n: u64) -> i32 {
                 continue;
             }
         };
+        // one run in eight hands the program over with noisy display names: occurrences of one
+        // variable (same id) are spelled differently, which must not matter
+        let mut nrng = Rng::keyed(seed, i, "name-noise");
+        if nrng.pct(12) {
+            sc.noise = nrng.next() | 1;
+            sum.stats.note("programs handed over with noisy display names");
+        }
         let mut prng = Rng::keyed(seed, i, "plans");
         let keys = Rng::keyed(seed, i, "hashkeys").next();
         let r = match std::panic::catch_unwind(std::panic::AssertUnwindSafe(|| workloads::run(wl, &sc, &rcfg, &mut prng, keys, &mut sum.stats))) {
